@@ -23,8 +23,7 @@ RULE = (
     "(non-commuting complex 2x2 singlet, ns+, diagonal or generic 2x2 valence, |gamma_k| <~ 10^k, from a drawn seed) "
     "embedded at gamma[i,0], every gamma[i,j>=1] filled with junk of size 0.1-1000. Oracles: (g,Sigma) block = ordered "
     "product of scipy expm of gamma(a_half)/beta(a_half) da with literature beta's, and = eko singlet.eko_iterate on the "
-    "geometric lists; photon row/column = identity; Sigma_Delta entry = scalar mid-point product of ns+ and within the "
-    "mid-point bound of the exact NS kernel; valence likewise (and = singlet.eko_iterate for generic 2x2); "
+    "geometric lists; photon row/column = identity; Sigma_Delta entry = scalar mid-point product of ns+; valence likewise (and = singlet.eko_iterate for generic 2x2); "
     "non_singlet_qed = product of the QCD exact NS kernels of the steps = one-step QCD exact kernel = exp of the "
     "quadrature of gamma/beta. E (end to end): fixed-flavour solves on 2-3 point grids, orders (1-3 (quick 1-2), 1-2), "
     "alpha_em fixed or running, alpha_em in {1e-4,1e-6,1e-8} at 10 iterations and alpha_em=1e-8 at 10,20,40 (thorough: "
@@ -40,8 +39,10 @@ ASSUMPTIONS = [
     "kernel tolerance 1e-12 x cond(V) x steps relative (the repository exponentiates through numpy eig; V = eigenvectors of "
     "the first step generator, cases with cond(V) > 1e4 are outside the domain of that closed form and discarded, "
     "counted); non-singlet 1e-10 relative (closed-form evolution integrals with cubic roots at N3LO)",
-    "Sigma_Delta / V_Delta vs the exact NS kernel: |diff| <= 0.25 h^2 c max|gamma a/beta| |E| with h = c/steps <= 0.32 "
-    "(constant of C12: 3 x the largest measured value), geometric lists only",
+    "'Sigma_Delta / V_Delta follow the non-singlet kernels for the same coupling steps' is decided against the scalar "
+    "mid-point product on those steps (rounding level); their distance to the closed-form NS kernel is the "
+    "discretisation error of the iterated solution, which C12 / C09 bound (a flat h^2 bound was tried here and is "
+    "exceeded by correct code at N3LO, where the integrand curves strongly)",
     "end to end: quad tolerance tightened to 1e-9 from the harness (tight_quad of C50); noise floor 1e-9 |E| (measured: "
     "the ratio of the two alpha_em differences reproduces the nominal 101.01 to 4 digits, i.e. noise < 1e-11)",
     "end-to-end constants, relative to max|E_QCD|, with dt = ln(mu_hi^2/mu_lo^2): alpha_em term <= c1 alpha_em with c1 = "
@@ -65,7 +66,7 @@ E_NOISE = 1e-9
 
 def budget(tier):
     if tier == "quick":
-        return dict(max_examples=16000, shards=16, wall_s=80, shrink_s=40)
+        return dict(max_examples=9600, shards=16, wall_s=150, shrink_s=30)
     return dict(max_examples=48000, shards=16, wall_s=850, shrink_s=150)
 
 
@@ -76,6 +77,7 @@ def strategy_kernel(tier):
     from hypothesis import strategies as st
 
     from vf import strategies as S
+    from vf.core import jhash
 
     @st.composite
     def build(draw):
@@ -88,58 +90,56 @@ def strategy_kernel(tier):
         if a1 > 0.05 or a1 < 0.002:
             a1 = a0 * a0 / a1
         a1 = min(max(a1, 0.002), 0.05)
-        return {
+        case = {
             "half": "K", "sector": sector, "order": [n, m], "nf": draw(st.sampled_from((4, 5, 3, 6))),
             "steps": draw(st.sampled_from((3, 5, 8, 13, 1, 2, 20, 40, 4, 10))), "a": [a0, a1],
             "lists": draw(st.sampled_from(("geom", "jitter"))), "valence_generic": draw(st.booleans()),
-            "seed": draw(st.integers(0, 2**31 - 1)), "lnmu": [draw(S.floats(0.0, 6.0)), draw(S.floats(0.0, 6.0))],
-            "running": draw(st.booleans()),
+            "lnmu": [draw(S.floats(0.0, 6.0)), draw(S.floats(0.0, 6.0))], "running": draw(st.booleans()),
         }
+        # Hypothesis favours simple values (measured: 18 % of drawn seeds are 0, half of the couplings sit on the lower
+        # bound): mix the drawn seed with a hash of all other fields so that towers differ whenever anything differs
+        case["seed"] = (draw(st.integers(0, 2**31 - 1)) ^ int(jhash(case), 16)) % 2**31
+        return case
 
     return build()
+
+
+def e2e_case(tier, seed):
+    """End-to-end case as a function of one integer drawn by Hypothesis (numpy Generator seeded with it)."""
+    rng = np.random.default_rng(int(seed))
+    quick = tier == "quick"
+
+    def pick(seq):
+        return seq[int(rng.integers(0, len(seq)))]
+
+    def uni(lo, hi):
+        return float(rng.uniform(lo, hi))
+
+    n = pick((2, 2, 2, 1) if quick else (2, 3, 2, 1))
+    x0 = uni(0.05, 0.3)
+    three = bool(pick((False, True))) and not quick
+    return {
+        "half": "E", "order": [n, pick((1, 2))], "nf": pick((3, 4, 5)), "mu0": uni(2.0, 5.0), "ratio": uni(1.5, 3.0),
+        "up": bool(pick((False, True))), "alphas": uni(0.2, 0.33), "running": bool(pick((False, True))),
+        "aems": [1e-4, 1e-6, 1e-8], "n_aem": 8 if quick else 10, "iters": [8, 16, 32] if quick else [10, 20, 40, 80, 160],
+        "xgrid": [x0, math.sqrt(x0), 1.0] if three else [x0, 1.0], "seed": int(seed),
+    }
 
 
 def strategy_e2e(tier):
     from hypothesis import strategies as st
 
-    from vf import strategies as S
-
-    quick = tier == "quick"
-
-    @st.composite
-    def build(draw):
-        n = draw(st.sampled_from((2, 2, 1) if quick else (2, 3, 2, 1)))
-        m = draw(st.sampled_from((1, 2)))
-        x0 = draw(S.floats(0.05, 0.3))
-        three = draw(st.booleans()) and not quick
-        return {
-            "half": "E", "order": [n, m], "nf": draw(st.sampled_from((4, 3, 5))), "mu0": draw(S.floats(2.0, 5.0)),
-            "ratio": draw(S.floats(1.5, 3.0)), "up": draw(st.booleans()), "alphas": draw(S.floats(0.2, 0.33)),
-            "running": draw(st.booleans()), "aems": [1e-4, 1e-6, 1e-8], "n_aem": 10,
-            "iters": [10, 20, 40] if quick else [10, 20, 40, 80, 160],
-            "xgrid": [x0, math.sqrt(x0), 1.0] if three else [x0, 1.0],
-        }
-
-    return build()
+    return st.integers(0, 2**31 - 1).map(lambda sd: e2e_case(tier, sd))
 
 
 def strategy(tier):
-    from hypothesis import strategies as st
-
-    # Both candidates are cheap to generate.  Which one is returned is a hash of the kernel candidate: Hypothesis re-uses
-    # and mutates choice sequences of earlier examples, so a *drawn* selector comes in bursts of (expensive) end-to-end
-    # cases per shard (measured for C51); a content hash changes with every mutation and gives a flat 1/n_sel rate.
+    # A kernel case is always drawn; whether it is replaced by an end-to-end case is decided by its content hash, and the
+    # end-to-end case is a function of the kernel case's drawn seed (a drawn selector comes in bursts because Hypothesis
+    # mutates earlier examples, and examples needing more draws than their parent are dropped - measured for C51).
     from vf.core import jhash
 
-    n_sel = 4000 if tier == "quick" else 1600
-
-    @st.composite
-    def both(draw):
-        k = draw(strategy_kernel(tier))
-        e = draw(strategy_e2e(tier))
-        return e if int(jhash(k), 16) % n_sel == 0 else k
-
-    return both()
+    n_sel = 1600 if tier == "quick" else 2400
+    return strategy_kernel(tier).map(lambda k: k if int(jhash(k), 16) % n_sel != 0 else e2e_case(tier, k["seed"]))
 
 
 # --------------------------------------------------------------------------------------------- kernel half
@@ -174,14 +174,9 @@ def check_kernel(case):
     beta_l = Q.beta_lit(n, nf)
     beta_e = [float(eko_beta.beta_qcd((2 + i, 0), nf)) for i in range(n)]
     c = abs(math.log(a1 / a0))
-    where = f"n={n}"
+    where = f"order=({n},{m})"
     geom = case["lists"] == "geom"
     method = EvoMethods.ITERATE_EXACT
-
-    def bound_vs_exact(T):
-        h = c / k
-        peak = max(abs(sum(T[i] * a ** (i + 1) for i in range(n)) / sum(beta_l[i] * a ** (i + 2) for i in range(n)) * a) for a in al)
-        return 0.25 * h * h * c * peak
 
     if sector in ("singlet", "valence"):
         dim = 4 if sector == "singlet" else 2
@@ -211,26 +206,32 @@ def check_kernel(case):
                 rest[i, j] = 0.0
             scale = max(float(np.max(np.abs(ref))), 1.0)
             if abs(K[1, 1] - 1.0) > tol:
-                res.fail(f"{ID}/K/photon-not-trivial/{where}", f"photon entry {K[1, 1]!r} != 1 at a_em = 0 (tol {tol:.1e})")
+                res.fail(f"{ID}/K/photon-not-trivial", f"{where}: photon entry {K[1, 1]!r} != 1 at a_em = 0 (tol {tol:.1e})")
             if np.max(np.abs(rest)) > tol * scale:
                 idx = np.unravel_index(np.argmax(np.abs(rest)), rest.shape)
                 res.fail(
-                    f"{ID}/K/leak/{where}",
-                    f"entry {tuple(int(i) for i in idx)} = {rest[idx]!r} couples sectors that decouple at a_em = 0 (tol {tol * scale:.1e})",
+                    f"{ID}/K/leak/{sector}",
+                    f"{where}: entry {tuple(int(i) for i in idx)} = {rest[idx]!r} couples sectors that decouple at a_em = 0 (tol {tol * scale:.1e})",
                 )
             d, _ = _close(K[3, 3], sd_ref, tol)
             if d > tol:
-                res.fail(f"{ID}/K/sdelta-vs-ns-midpoint/{where}", f"Sigma_Delta entry {K[3, 3]!r} vs ns+ mid-point product {sd_ref!r}: rel {d:.2e} > {tol:.1e}")
-            diag_checks = [("Sigma_Delta", K[3, 3], nsp)]
+                res.fail(f"{ID}/K/diag-vs-ns-midpoint/singlet", f"{where}: Sigma_Delta entry {K[3, 3]!r} vs ns+ mid-point product {sd_ref!r}: rel {d:.2e} > {tol:.1e}")
         else:
             block = K
-            diag_checks = []
             if not case["valence_generic"]:
-                diag_checks = [("V", K[0, 0], V[:, 0, 0]), ("V_Delta", K[1, 1], V[:, 1, 1])]
+                # diagonal input (the physical case): V and V_Delta follow their own non-singlet mid-point products
+                for name, idx in (("V", 0), ("V_Delta", 1)):
+                    want = Q.midpoint_product(V[:, idx, idx], al, ah, beta_l)
+                    d, _ = _close(K[idx, idx], want, tol)
+                    if d > tol:
+                        res.fail(f"{ID}/K/diag-vs-ns-midpoint/valence", f"{where}: {name} entry {K[idx, idx]!r} vs mid-point product {want!r}: rel {d:.2e} > {tol:.1e}")
+                off = max(abs(K[0, 1]), abs(K[1, 0]))
+                if off > tol * max(float(np.max(np.abs(ref))), 1.0):
+                    res.fail(f"{ID}/K/leak/valence", f"{where}: valence off-diagonal {off:.2e} on diagonal input")
         d, _ = _close(block, ref, tol)
         if d > tol:
             res.fail(
-                f"{ID}/K/{sector}-block-vs-midpoint-product/{where}",
+                f"{ID}/K/{sector}-block-vs-midpoint-product",
                 f"{sector} QCD block differs from the independent mid-point product by rel {d:.2e} > {tol:.1e} "
                 f"(order {order}, nf={nf}, steps {k}, lists {case['lists']}, a=({a0},{a1}))",
             )
@@ -243,24 +244,10 @@ def check_kernel(case):
             d, _ = _close(block, qcd, tol)
             if d > tol:
                 res.fail(
-                    f"{ID}/K/{sector}-block-vs-qcd-iterate/{where}",
+                    f"{ID}/K/{sector}-block-vs-qcd-iterate",
                     f"{sector} QCD block differs from singlet.eko_iterate on the same steps by rel {d:.2e} > {tol:.1e} "
                     f"(order {order}, nf={nf}, steps {k}, a=({a0},{a1}))",
                 )
-            if c / k <= 0.32:
-                for name, val, tower in diag_checks:
-                    try:
-                        exact = ns.dispatcher((n, 0), method, np.array(tower, dtype=complex), a1, a0, nf)
-                    except Exception as e:  # noqa: BLE001
-                        res.fail(exc_bucket(f"{ID}/K/call/qcd-ns", e), f"{e!r}")
-                        return res
-                    bnd = bound_vs_exact(tower) * abs(exact) + NS_TOL * abs(exact)
-                    if abs(val - exact) > bnd:
-                        res.fail(
-                            f"{ID}/K/{name}-vs-ns-exact/{where}",
-                            f"{name} entry {val!r} vs exact QCD NS kernel {exact!r}: |diff| {abs(val - exact):.3e} > mid-point bound {bnd:.3e} "
-                            f"(steps {k}, c={c:.3f})",
-                        )
         return res
 
     # non-singlet
@@ -284,7 +271,7 @@ def check_kernel(case):
     for name, ref, tol in (("qcd-steps", steps, 1e-12 * k), ("qcd-one-step", one, NS_TOL), ("quadrature", quad_ref, NS_TOL)):
         if abs(K - ref) > tol * abs(ref):
             res.fail(
-                f"{ID}/K/ns-vs-{name}/{where}",
+                f"{ID}/K/ns-vs-{name}",
                 f"non_singlet_qed at a_em=0: {K!r} vs {name} {ref!r}, rel {abs(K - ref) / abs(ref):.2e} > {tol:.1e} "
                 f"(order {order}, nf={nf}, steps {k}, a=({a0},{a1}))",
             )
